@@ -60,6 +60,9 @@ def make_requests():
         ("item_error", "S1", "{ a { nkids { name ... on A { nn } } } }", [("items", "A.nkids"), ("fielderr", "A.nn"), ("field", "A.name"), ("field", "B.name")], {}),
         # the same below a list whose items are non-null while the list is nullable: the error of an asynchronously completed item nulls the list
         ("item_error_nonnull_items", "S1", "{ a { kids { name ... on A { nn } } name } }", [("items", "A.kids"), ("fielderr", "A.nn"), ("field", "A.name"), ("rt", "Node")], {}),
+        # two fields await one and the same future; a non-null sibling of one of them fails
+        ("shared_future", "S1", "{ a { nn name } x: a { name id } }", [("fielderr", "A.nn"), ("shared", "A.name")], {}),
+        ("shared_future_list", "S1", "{ a { kids { ... on A { nn } name } } y: a { name } }", [("fielderr", "A.nn"), ("shared", "A.name"), ("items", "A.kids")], {}),
         ("merged_abstract", "S1", "{ a { nkids { ... on A { a } } nkids { ... on B { b } name } } }", [("items", "A.nkids"), ("field", "A.a"), ("field", "B.b")], {}),
         ("merged_union", "S1", "{ ns { id } ns { ... on A { a } ... on B { b } } u { ... on B { nn } } u { ... on B { b } } }", [("items", "Query.ns"), ("field", "Query.u"), ("field", "B.b")], {}),
         ("merged", "S1", "{ x: a { name } a { name nn } ...F } fragment F on Query { a { id self { id } } }", [("field", "Query.a"), ("field", "A.name"), ("field", "A.self")], {}),
@@ -205,7 +208,7 @@ def install(world, schema, objs, sites, mask, options, calls=None):
                         raise Boom("sync failure")
                     d[fname] = boomc
             continue
-        if kind in ("field", "fielderr", "items", "aiter"):
+        if kind in ("field", "fielderr", "items", "aiter", "shared"):
             tname, fname = key.split(".")
             for variant in (0, 1):
                 d = objs[tname][variant]
@@ -213,6 +216,18 @@ def install(world, schema, objs, sites, mask, options, calls=None):
                 if kind == "field":
                     if is_async:
                         d[fname] = (lambda orig, tname=tname, fname=fname: lambda path, args: world.gate(f"{'.'.join(map(str, path))}", orig(path, args) if callable(orig) else orig))(orig)
+                elif kind == "shared":
+                    # every invocation on one object returns the SAME future (a data loader hands out one future per key)
+                    if is_async:
+                        def mks(orig, d=d, key=key):
+                            box = {}
+
+                            def fn(path, args):
+                                if "f" not in box:
+                                    box["f"] = world.gate(f"shared:{key}", orig(path, args) if callable(orig) else orig)
+                                return box["f"]
+                            return fn
+                        d[fname] = mks(orig)
                 elif kind == "fielderr":
                     if variant == 1:
                         continue
@@ -393,7 +408,10 @@ def run_request(req, mask, tier, res, only_choices=None, mode="sched"):
                       calls.append(("release", og[0].label))
                       og[0].release()
                       w.drain()
-                  if t.exception() is not None:
+                  if t.cancelled():
+                      # nobody cancelled the caller: the request itself ended in a CancelledError
+                      outcome = ("raised", "CancelledError() - the awaiting caller was cancelled from within the execution")
+                  elif t.exception() is not None:
                       outcome = ("raised", repr(t.exception()))
                   else:
                       outcome = ("result", box["r"])
@@ -417,7 +435,7 @@ def run_request(req, mask, tier, res, only_choices=None, mode="sched"):
             res.violation("hang", f"{label}: {outcome[1]}", payload)
             return
         if outcome[0] == "raised":
-            res.violation("execute_raises", f"{label}: {outcome[1]}", payload)
+            res.violation(f"execute_raises:{outcome[1].split('(')[0]}:{name}", f"{label}: {outcome[1]}", payload)
             return
         r = outcome[1]
         if not isinstance(r, ExecutionResult):
